@@ -143,6 +143,7 @@ class Engine:
         self.intrinsics = []      # (regex, fn, label)
         self.stubs = []           # per-check (regex, fn, label)
         self.struct_models = {}   # type last segment -> fn(eng, st, base) building a symbolic value
+        self.unsupported_as_outcome = False   # harness option: a path that leaves the executor's vocabulary ends as Outcome('unsupported')
         self.lenient = False      # under-constrained mode: unknown callees become uninterpreted calls
         self.block_budget = None  # deterministic exploration budget (basic blocks) for bug-hunting scans
         self.merge_closure_calls = False   # pure closure calls are summarised into one ite value instead of forking
@@ -469,6 +470,14 @@ class Engine:
                 else:
                     raise Unsupported('field of %r' % (val,))
             elif k == 'downcast':
+                if isinstance(val, Opaque) and self.lenient:
+                    # enum of another crate held as an under-constrained object: one lazily materialised payload per variant name
+                    key = ('lazy', val.ident, ('variant', p[1]))
+                    if key not in st.notes:
+                        st.notes[key] = Opaque('payload:%s::%s' % (val.tag, p[1]), next(self.counter))
+                    val = st.notes[key]
+                    i += 1
+                    continue
                 if not isinstance(val, Enum):
                     raise Unsupported('downcast of %r' % (val,))
                 vi = self.variant_index(val.name, p[1]) if val.name else None
@@ -627,6 +636,12 @@ class Engine:
                 else:
                     raise Unsupported('field of %r' % (val,))
             elif k == 'downcast':
+                if isinstance(val, Opaque) and self.lenient:
+                    key = ('lazy', val.ident, ('variant', p[1]))
+                    if key not in st.notes:
+                        st.notes[key] = Opaque('payload:%s::%s' % (val.tag, p[1]), next(self.counter))
+                    val = st.notes[key]
+                    continue
                 if not isinstance(val, Enum):
                     raise Unsupported('downcast of %r' % (val,))
                 vi = self.variant_index(val.name, p[1]) if val.name else None
@@ -799,6 +814,12 @@ class Engine:
             raise Unsupported('unop %s on %r' % (rv[1], a))
         if k == 'discr':
             v = self.read_place(st, frame, rv[1])
+            if isinstance(v, Opaque) and self.lenient:
+                # under-constrained enum of another crate: an unconstrained discriminant (every switch arm is explored)
+                key = ('lazy', v.ident, 'discr')
+                if key not in st.notes:
+                    st.notes[key] = self.fresh_bv('lz%s.discr' % v.ident, 'isize')
+                return st.notes[key]
             if not isinstance(v, Enum):
                 raise Unsupported('discriminant of %r' % (v,))
             return BV(v.discr, 'isize')
@@ -1014,7 +1035,14 @@ class Engine:
         work = [(st, start_bb)]
         while work:
             s, bb = work.pop()
-            self._run_block(s, frame, fn, bb, work, outcomes)
+            if self.unsupported_as_outcome:
+                try:
+                    self._run_block(s, frame, fn, bb, work, outcomes)
+                except Unsupported as e:
+                    # the path ends where the executor's vocabulary ends; the harness decides what that means
+                    outcomes.append(Outcome('unsupported', s, None, {'msg': str(e), 'fn': fn.name}))
+            else:
+                self._run_block(s, frame, fn, bb, work, outcomes)
         for o in outcomes:
             o.state.depth -= 1
         return outcomes
@@ -1062,6 +1090,10 @@ class Engine:
                 continue
             if k == 'unreachable':
                 if self.feasible(s):
+                    if self.lenient:
+                        # under-constrained objects carry unconstrained discriminants; rustc's validity invariant excludes this path
+                        self.stats['lenient_unreachable_pruned'] = self.stats.get('lenient_unreachable_pruned', 0) + 1
+                        return
                     raise Unsupported('feasible path reaches `unreachable` in %s bb%d' % (fn.name, bb))
                 return
             if k == 'switch':
@@ -1234,6 +1266,8 @@ class Engine:
             if rx.search(callee):
                 self.stats['intrinsics_used']['stub: ' + label] = self.stats['intrinsics_used'].get('stub: ' + label, 0) + 1
                 r = f(self, s, args, ci)
+                if r is NotImplemented:       # the stub declines this callee
+                    continue
                 if isinstance(r, Forks):
                     return [(s2, 'ret', v) for (s2, v) in r.alts]
                 if isinstance(r, list):
